@@ -1,0 +1,132 @@
+//go:build verif
+
+package ecs
+
+// Contracts for the deductive verifier in /verif (govc). This file contains comments only:
+// it adds no code to the package and is compiled only with the build tag "verif".
+// Syntax: see /verif/DESIGN.md section 3.7. Parameters are bound positionally.
+
+// ---------------------------------------------------------------------------------------------
+// C04 — masks as sets of component IDs
+// ---------------------------------------------------------------------------------------------
+
+//@ if !tiny
+//@ pred specBit(m Mask, i uint8) bool = (m.bits[i/64] >> (i%64)) & 1 == 1
+//@ pred maskEmpty(m Mask) bool = m.bits[0] == 0 && m.bits[1] == 0 && m.bits[2] == 0 && m.bits[3] == 0
+//@ pred maskCard(m Mask) int = popcount(m.bits[0]) + popcount(m.bits[1]) + popcount(m.bits[2]) + popcount(m.bits[3])
+//@ pred validID(i uint8) bool = true
+//@ endif
+//@ if tiny
+//@ pred specBit(m Mask, i uint8) bool = i < 64 && (m.bits >> i) & 1 == 1
+//@ pred maskEmpty(m Mask) bool = m.bits == 0
+//@ pred maskCard(m Mask) int = popcount(m.bits)
+//@ pred validID(i uint8) bool = i < 64
+//@ endif
+
+//@ pred subset(a Mask, b Mask) bool = forall! i uint8 :: specBit(a, i) ==> specBit(b, i)
+//@ pred meets(a Mask, b Mask) bool = exists! i uint8 :: specBit(a, i) && specBit(b, i)
+//@ pred sameSet(a Mask, b Mask) bool = forall! i uint8 :: specBit(a, i) == specBit(b, i)
+
+//@ func Mask.Get(b, bit) (r)
+//@   props C04
+//@   ensures r == specBit(*b, bit.id)
+
+//@ func Mask.Set(b, bit, value)
+//@   props C04
+//@   ensures forall! i uint8 :: specBit(*b, i) == ite(i == bit.id && validID(i), value, old(specBit(*b, i)))
+//@   modifies b.bits
+
+//@ func Mask.Not(b) (r)
+//@   props C04
+//@   ensures forall! i uint8 :: validID(i) ==> specBit(r, i) == !specBit(*b, i)
+
+//@ func Mask.IsZero(b) (r)
+//@   props C04
+//@   ensures r == (forall! i uint8 :: !specBit(*b, i))
+
+//@ func Mask.Reset(b)
+//@   props C04
+//@   ensures forall! i uint8 :: !specBit(*b, i)
+//@   modifies b.bits
+
+//@ func Mask.Contains(b, other) (r)
+//@   props C04
+//@   requires other != nil
+//@   ensures r == subset(*other, *b)
+
+//@ func Mask.ContainsAny(b, other) (r)
+//@   props C04
+//@   requires other != nil
+//@   ensures r == meets(*b, *other)
+
+//@ func Mask.And(b, other) (r)
+//@   props C04
+//@   requires other != nil
+//@   ensures forall! i uint8 :: specBit(r, i) == (specBit(*b, i) && specBit(*other, i))
+
+//@ func Mask.Or(b, other) (r)
+//@   props C04
+//@   requires other != nil
+//@   ensures forall! i uint8 :: specBit(r, i) == (specBit(*b, i) || specBit(*other, i))
+
+//@ func Mask.Xor(b, other) (r)
+//@   props C04
+//@   requires other != nil
+//@   ensures forall! i uint8 :: specBit(r, i) == (specBit(*b, i) != specBit(*other, i))
+
+//@ func Mask.TotalBitsSet(b) (r)
+//@   props C04
+//@   ensures r == maskCard(*b)
+
+//@ func All(ids) (r)
+//@   props C04
+//@   ensures forall i uint8 :: specBit(r, i) == (validID(i) && exists k int :: 0 <= k && k < len(ids) && ids[k].id == i)
+//@   loop #1
+//@   loopmod mask.bits
+//@   inv forall i uint8 :: specBit(mask, i) == (validID(i) && exists k int :: 0 <= k && k < $i && ids[k].id == i)
+
+//@ func Mask.Matches(b, bits) (r)
+//@   props C04
+//@   requires bits != nil
+//@   ensures r == subset(b, *bits)
+
+//@ func Mask.Without(b, comps) (r)
+//@   props C04
+//@   ensures sameSet(r.Include, b)
+//@   ensures forall i uint8 :: specBit(r.Exclude, i) == (validID(i) && exists k int :: 0 <= k && k < len(comps) && comps[k].id == i)
+
+//@ func Mask.Exclusive(b) (r)
+//@   props C04
+//@   ensures sameSet(r.Include, b)
+//@   ensures forall! i uint8 :: validID(i) ==> specBit(r.Exclude, i) == !specBit(b, i)
+
+// ---- filters -------------------------------------------------------------------------------
+
+//@ uf matches(f Filter, m Mask) bool
+
+//@ iface Filter.Matches(self, bits) (r)
+//@   requires bits != nil
+//@   ensures r == matches(self, *bits)
+
+//@ pred maskFilterMatches(inc Mask, exc Mask, m Mask) bool = subset(inc, m) && !meets(exc, m)
+
+//@ func MaskFilter.Matches(f, bits) (r)
+//@   props C04
+//@   requires bits != nil
+//@   ensures r == maskFilterMatches(f.Include, f.Exclude, *bits)
+
+//@ func RelationFilter.Matches(f, bits) (r)
+//@   props C04
+//@   requires bits != nil && f.Filter != nil
+//@   ensures r == matches(f.Filter, *bits)
+
+//@ func CachedFilter.Matches(f, bits) (r)
+//@   props C04
+//@   requires bits != nil && f.filter != nil
+//@   ensures r == matches(f.filter, *bits)
+
+//@ lemma exclusiveFilter(inc Mask, exc Mask, m Mask)
+//@   props C04
+//@   requires forall! i uint8 :: validID(i) ==> specBit(exc, i) == !specBit(inc, i)
+//@   requires forall! i uint8 :: !validID(i) ==> !specBit(m, i) && !specBit(inc, i)
+//@   ensures maskFilterMatches(inc, exc, m) == sameSet(m, inc)
